@@ -149,7 +149,7 @@ def tie_check():
                   os.path.join(COQ, "Proofs", "C03Full.vo")]
     model_vos += [os.path.join(COQ, "Model", "BoundsParse.vo"), os.path.join(COQ, "Proofs", "C18Iff.vo")]
     model_vos += [os.path.join(COQ, "Model", "Scan.vo"), os.path.join(COQ, "Proofs", "ScanSplit.vo"), os.path.join(COQ, "Proofs", "C02.vo")]
-    model_vos += [os.path.join(COQ, "Model", "CutStr.vo"), os.path.join(COQ, "Proofs", "C16Replace.vo"), os.path.join(COQ, "Proofs", "C16.vo"), os.path.join(COQ, "Proofs", "C12.vo"), os.path.join(COQ, "Model", "CutLines.vo"), os.path.join(COQ, "Proofs", "C05Full.vo"), os.path.join(COQ, "Proofs", "PlainMulti.vo")]
+    model_vos += [os.path.join(COQ, "Model", "CutStr.vo"), os.path.join(COQ, "Proofs", "C16Replace.vo"), os.path.join(COQ, "Proofs", "C16.vo"), os.path.join(COQ, "Proofs", "C12.vo"), os.path.join(COQ, "Model", "CutLines.vo"), os.path.join(COQ, "Proofs", "C05Full.vo"), os.path.join(COQ, "Proofs", "PlainMulti.vo"), os.path.join(COQ, "Proofs", "Utf8Snoc.vo")]
     for b in ("RsPrelude", "TieBase", "RsOpt", "RsStr", "RsList", "RsScan", "RsRegex", "RsLines", "RsCut", "CutStrFacts", "LinesFacts"):
         src = os.path.join(TIE, b + ".v")
         if not _fresh(b, [src] + (model_vos[:1] if b not in ("RsOpt", "RsStr", "RsRegex", "RsLines", "RsCut", "CutStrFacts", "LinesFacts") else [model_vos[0], model_vos[4], os.path.join(COQ, "Model", "BoundsParse.vo"), os.path.join(COQ, "Model", "CutStr.vo"), os.path.join(COQ, "Model", "CutLines.vo"), os.path.join(COQ, "Proofs", "BoundsFacts.vo"), os.path.join(COQ, "Proofs", "C06.vo")]) + base):
